@@ -385,44 +385,46 @@ Case(f, o) == /\ phase' = "case"
               /\ org' = o
               /\ UNCHANGED seed
 
-GenEdge == /\ seed.f = "edge"
+Seeded(f) == phase = "seed" /\ seed.f = f
+
+GenEdge == /\ Seeded("edge")
            /\ \E o \in {NoOrg, Org(<<>>)} : Case("edge", o)
 
-GenShort == /\ seed.f = "short"
+GenShort == /\ Seeded("short")
             /\ \E n \in 0..(MaxShort-1) : \E t \in [1..n -> Alphabet] :
                    Case("short", Org(seed.x \o t))
 
 \* every single byte, alone and next to a valid letter
-GenByte == /\ seed.f = "byte"
+GenByte == /\ Seeded("byte")
            /\ \E b \in (16*seed.x[1])..(16*seed.x[1]+15) :
                 \E s \in {<<b>>, <<97, b>>, <<b, 97>>, <<b, PIPE, b>>} : Case("byte", Org(s))
 
-GenRuns == /\ seed.f = "runs"
+GenRuns == /\ Seeded("runs")
            /\ \E n \in 0..(MaxSegs-1) : \E t \in [1..n -> Seg] :
                    Case("runs", Org(Expand(<<seed.x>> \o t)))
 
 PartLists(f, P, max) ==
-    /\ seed.f = f
+    /\ Seeded(f)
     /\ \E n \in 0..(max-1) : \E g \in [1..n -> DOMAIN P] :
            Case(f, Org(Join(<<P[seed.x[1]]>> \o [i \in 1..n |-> P[g[i]]], PIPE)))
 
-GenParts == PartLists("parts", Pool, MaxParts) \/ PartLists("parts2", Pool2, MaxParts2)
+GenParts  == PartLists("parts", Pool, MaxParts)
+GenParts2 == PartLists("parts2", Pool2, MaxParts2)
 
-GenMeta == /\ seed.f = "meta"
+GenMeta == /\ Seeded("meta")
            /\ \E n \in 0..(MaxMeta-1) : \E t \in [1..n -> MetaAlphabet] :
                    Case("meta", Org(<<97>> \o seed.x \o t))
 
 \* metadata around the 64-byte limit: ":a=" followed by a run of n digits
 GenMetaLen ==
-    /\ seed.f = "metalen"
+    /\ Seeded("metalen")
     /\ \E t \in {<<97>>, Rep(97, 150), Rep(97, 151)} :
          \E tail \in {<<>>, <<COLON, 98, EQ>>, <<SLASH>>, <<COLON>>, <<COLON, 48, EQ>>} :
            \E dup \in BOOLEAN :
              LET base == t \o <<COLON, 97, EQ>> \o Rep(48, seed.x[1]) \o tail
              IN  Case("metalen", Org(IF dup THEN base \o <<PIPE>> \o base ELSE base))
 
-Next == /\ phase = "seed"
-        /\ (GenEdge \/ GenShort \/ GenByte \/ GenRuns \/ GenParts \/ GenMeta \/ GenMetaLen)
+Next == GenEdge \/ GenShort \/ GenByte \/ GenRuns \/ GenParts \/ GenParts2 \/ GenMeta \/ GenMetaLen
 
 Spec == Init /\ [][Next]_vars
 
